@@ -326,9 +326,31 @@ def scalar_value(t):
     return False
 
 
+def _masklike(k):
+    return k[0] in ('cmp0', 'band', 'bor', 'binv') or (k[0] == 'not' and k[1][0] == 'cmp')
+
+
+def _compose_masks(inner_mask, outer_mask, wrap=None):
+    """X[m1][m2] where m2 is an element-wise condition on arrays selected with the same m1  ==  X[m1 & m2']  (m2' on the unselected arrays)"""
+    sel = (lambda z: ('idx', z, inner_mask)) if wrap is None else (lambda z: ('idx', z, (wrap, inner_mask)))
+    hits = [x for x in walk(outer_mask) if x[0] == 'idx' and x[2] == (inner_mask if wrap is None else (wrap, inner_mask))]
+    if not hits:
+        return None
+    lifted = subst(outer_mask, lambda x: x[1] if x[0] == 'idx' and x[2] == (inner_mask if wrap is None else (wrap, inner_mask)) else None)
+    return band([inner_mask, lifted])
+
+
 def index(base, k):
     if base[0] == 'nd':
         base = base[1]
+    if base[0] == 'idx' and _masklike(k) and _masklike(base[2]):
+        m = _compose_masks(base[2], k)
+        if m is not None:
+            return index(base[1], m)
+    if base[0] == 'idx' and k[0] == 'rowsel' and base[2][0] == 'rowsel' and _masklike(k[1]) and _masklike(base[2][1]):
+        m = _compose_masks(base[2][1], k[1], wrap='rowsel')
+        if m is not None:
+            return index(base[1], ('rowsel', m))
     if base[0] == 'lin' and (base[1] == 0 or _pointwise_key(k)):      # (sum c_i x_i)[k] = sum c_i x_i[k]   (scalars are broadcast, not indexed)
         return lin(base[1] if _pointwise_key(k) else 0, [(t if is_scalar(t) else index(t, k), c) for t, c in base[2]])
     if base[0] == 'cmp0' and _pointwise_key(k):           # element k of an element-wise comparison / conjunction
@@ -638,6 +660,15 @@ def or_(ts):
     return out[0] if len(out) == 1 else ('or', out)
 
 
+def _all_true(t):
+    """np.ones(n, dtype=bool): the neutral element of an element-wise conjunction"""
+    t = t[1] if t[0] == 'nd' else t
+    if t[0] != 'call' or t[1] != 'ones':
+        return False
+    dt = dict(t[3]).get('dtype', t[2][1] if len(t[2]) > 1 else None)
+    return dt in (('const', 'bool'), ('builtin', 'bool'))
+
+
 def band(ts):
     out = []
     for t in ts:
@@ -645,6 +676,8 @@ def band(ts):
             out.extend(t[1])
         else:
             out.append(t)
+    if len(out) > 1 and any(not _all_true(t) for t in out):
+        out = [t for t in out if not _all_true(t)]
     out = sort_terms(set(out))
     return out[0] if len(out) == 1 else ('band', out)
 
@@ -663,6 +696,8 @@ def bor(ts):
 def binv(t):
     if t[0] == 'binv':
         return t[1]
+    if t[0] == 'nd' and t[1][0] in ('list', 'tuple') and t[1][1] and all(isconst(e) and isinstance(e[1], bool) for e in t[1][1]):
+        return ('nd', (t[1][0], tuple(('const', not e[1]) for e in t[1][1])))        # ~ of an explicit boolean array
     if isconst(t) and isinstance(t[1], bool):
         return ('const', not t[1])
     return ('binv', t)
